@@ -891,7 +891,8 @@ pub fn c17(seed: u64, idx: u64, t: &mut Tally) {
             r.shuffle(&mut order);
         }
         for _instance in 0..2 {
-            let coll = build(&order);
+            // the second instance is a clone of a dropped original
+            let coll = if _instance == 1 { let orig = build(&order); orig.clone() } else { build(&order) };
             let res = coll.find(&gstep);
             t.count("c17.finds", 1);
             match (matching.len(), res) {
@@ -989,12 +990,13 @@ pub fn c18(seed: u64, idx: u64, t: &mut Tally) {
     t.evaluations += 1;
     let retry_tag = |r: &mut Rng| -> (String, Option<usize>, Option<u64>) {
         let n = r.range(0, 4);
-        let d = *r.pick(&[5u64, 30, 1500]);
+        // delays in several units, an explicit zero included (a given delay, not an omitted one)
+        let (dt, d) = *r.pick(&[("5ms", 5u64), ("30ms", 30), ("1500ms", 1500), ("2s", 2000), ("1m", 60_000), ("1h", 3_600_000), ("0s", 0), ("0ms", 0)]);
         match r.below(4) {
             0 => ("retry".to_owned(), None, None),
             1 => (format!("retry({n})"), Some(n), None),
-            2 => (format!("retry.after({d}ms)"), None, Some(d)),
-            _ => (format!("retry({n}).after({d}ms)"), Some(n), Some(d)),
+            2 => (format!("retry.after({dt})"), None, Some(d)),
+            _ => (format!("retry({n}).after({dt})"), Some(n), Some(d)),
         }
     };
     let level = |r: &mut Rng| -> (Vec<String>, Option<(Option<usize>, Option<u64>)>) {
